@@ -314,7 +314,9 @@ ExecChecks ==
   LET c == Call
       fresh == {id \in NewTasks : ~TaskOf(Post, id).dnc \/ c.dnc}   \* not a background task
       sel == {i \in DOMAIN Isc : Isc[i].k = "select"}
-      dup == {t \in Tasks(S) : Live(t) /\ ~t.dnc /\ t.digest = c.digest \o "@" \o c.instance}
+      \* in-flight tasks for the same action that survive the cleanups run at the start of this section
+      dup == {t \in Tasks(S) : Live(t) /\ ~t.dnc /\ t.digest = c.digest \o "@" \o c.instance
+                                /\ ~OpsOfTaskDue(t) /\ ~WorkerOfTaskDue(t) /\ ~QueueOfTaskDue(t)}
       cands == Candidates(Post, c.instance, c.platform)
   IN <<
     <<(~c.dnc /\ dup # {}) => fresh = {}, "C03:duplicate-request-created-a-second-task">>,
